@@ -805,6 +805,12 @@ fn do_internal_timer<M: AsRef<[Machine]>>(
     }
 
     assert!(machine.is_some(), "BUG: no internal action found");
+    #[cfg(maybenot_verif)]
+    verif::log(verif::Rec::TimerFired {
+        is_client,
+        time: target,
+        machine: machine.unwrap().into_raw(),
+    });
 
     // create SimEvent with TimerEnd
     Some(SimEvent {
@@ -858,6 +864,12 @@ fn do_scheduled_action<M: AsRef<[Machine]>>(
     // no action found
     assert!(a.is_some(), "BUG: no action found");
     let a = a.unwrap();
+    #[cfg(maybenot_verif)]
+    verif::log(verif::Rec::ActionFired {
+        is_client,
+        time: target,
+        action: a.action.clone(),
+    });
 
     // do the action
     match a.action {
